@@ -214,3 +214,10 @@ Theorem C04_binary64_fixed_extent_exact : forall blocks c s e b,
   (chrom_offset blocks c + Zfloor (fdiv s b), chrom_offset blocks c + Zceil (fdiv e b)) = region_to_extent_fixed blocks c s e b.
 Proof. exact binary64_fixed_extent_exact. Qed.
 Print Assumptions C04_binary64_fixed_extent_exact.
+
+(** the float64 quotient expression of _region_to_extent that the binary64 theorem above is about is pinned in the source on every run
+    (tools/py2v.py): a reciprocal multiplication or another shortcut is a different computation *)
+From Cooler Require Import Gen.Translated.
+Theorem C04_float_division_source_pins : Gen.float_division_pins_extent = true.
+Proof. reflexivity. Qed.
+Print Assumptions C04_float_division_source_pins.
